@@ -208,7 +208,9 @@ def step (d : DS) (toks : List String) : DS × String :=
     -- section: the entry of `c` (created by the writer in between) is treated as removed and forgotten with its tree
     (match c.toNat? with
      | some cid =>
-       let drop (ci : CIndex.St) : CIndex.St := { ci with chunks := ci.chunks.filter (fun ch => ch.id != cid) }
+       -- with the repair of F53 a chunk newer than the reader's list stays known
+       let drop (ci : CIndex.St) : CIndex.St :=
+         if Generated.C02.syncChunksKeepsNewerChunks then ci else { ci with chunks := ci.chunks.filter (fun ch => ch.id != cid) }
        ({ d with rcidx := drop d.rcidx, rcidx2 := drop d.rcidx2, rcidx3 := drop d.rcidx3, rcidx4 := drop d.rcidx4, phLive := false }, "ok")
      | none => (d, "bad-op"))
   | ["rw.notify"] =>
